@@ -65,13 +65,55 @@ Definition pkg_of_arg (a : arg) : pkg :=
         (opt_of_arg sigpkt_of_arg (arg_nth 2 sigs)) (opt_of_arg sigpkt_of_arg (arg_nth 3 sigs))
         (arg_bytes (arg_nth 11 a)).
 
+(* ---- arbitrary layouts: (major minor leadrest hdr pad hdr payload), hdr = (version reserved ((tag type off cnt)...) store) ---- *)
+
+Definition gent_of_arg (a : arg) : gent :=
+  mkgent (arg_N (arg_nth 0 a)) (arg_N (arg_nth 1 a)) (arg_N (arg_nth 2 a)) (arg_N (arg_nth 3 a)).
+
+Definition ghdr_of_arg (a : arg) : ghdr :=
+  mkghdr (arg_N (arg_nth 0 a)) (arg_bytes (arg_nth 1 a)) (map gent_of_arg (arg_list (arg_nth 2 a))) (arg_bytes (arg_nth 3 a)).
+
+Definition gpkg_of_arg (a : arg) : gpkg :=
+  mkgpkg (arg_N (arg_nth 0 a)) (arg_N (arg_nth 1 a)) (arg_bytes (arg_nth 2 a))
+         (ghdr_of_arg (arg_nth 3 a)) (arg_bytes (arg_nth 4 a)) (ghdr_of_arg (arg_nth 5 a)) (arg_bytes (arg_nth 6 a)).
+
+(* signature packets: (form version sigtype algo hash created issuer (hashed...) (unhashed...) hashtag ((bits octets)...));
+   form = (0 lt) | (1 f) | (2 (k...) f); subpacket = (lenform type data) *)
+Definition subpkt_of_arg (a : arg) : subpkt :=
+  mksub (arg_N (arg_nth 0 a)) (arg_N (arg_nth 1 a)) (arg_bytes (arg_nth 2 a)).
+
+Definition pform_of_arg (a : arg) : pform :=
+  let k := arg_Z (arg_nth 0 a) in
+  if Z.eqb k 0 then FOld (arg_N (arg_nth 1 a))
+  else if Z.eqb k 1 then FNew (arg_N (arg_nth 1 a))
+  else FPartial (map arg_N (arg_list (arg_nth 1 a))) (arg_N (arg_nth 2 a)).
+
+Definition gsig_of_arg (a : arg) : gsig :=
+  mkgsig (pform_of_arg (arg_nth 0 a)) (arg_N (arg_nth 1 a)) (arg_N (arg_nth 2 a)) (arg_N (arg_nth 3 a)) (arg_N (arg_nth 4 a))
+         (be_to_N (arg_bytes (arg_nth 5 a))) (be_to_N (arg_bytes (arg_nth 6 a)))
+         (map subpkt_of_arg (arg_list (arg_nth 7 a))) (map subpkt_of_arg (arg_list (arg_nth 8 a)))
+         (arg_bytes (arg_nth 9 a))
+         (map (fun m => (arg_N (arg_nth 0 m), arg_bytes (arg_nth 1 m))) (arg_list (arg_nth 10 a))).
+
+Definition gsigs_of_arg (a : arg) : gsigs :=
+  mkgsigs (opt_of_arg gsig_of_arg (arg_nth 0 a)) (opt_of_arg gsig_of_arg (arg_nth 1 a))
+          (opt_of_arg gsig_of_arg (arg_nth 2 a)) (opt_of_arg gsig_of_arg (arg_nth 3 a)).
+
 Definition run_C19 (op : bytes) (input : arg) : arg :=
   if bytes_eqb op (bs "encode") then AB (encode (pkg_of_arg (arg_nth 0 input)))
   else if bytes_eqb op (bs "wf") then ok_arg (pkg_ok (pkg_of_arg (arg_nth 0 input)))
   else if bytes_eqb op (bs "report") then AL [AZ 0; arg_of_info (report (pkg_of_arg (arg_nth 0 input)))]
-  else if bytes_eqb op (bs "lib") then
+  else if bytes_eqb op (bs "gencode") then AB (gencode (gpkg_of_arg (arg_nth 0 input)))
+  else if bytes_eqb op (bs "gwf") then
+    ok_arg (gpkg_ok (gpkg_of_arg (arg_nth 0 input)) && gsigs_ok (gpkg_of_arg (arg_nth 0 input)) (gsigs_of_arg (arg_nth 1 input)))
+  else if bytes_eqb op (bs "greport") then
+    AL [AZ 0; arg_of_info (greport (gpkg_of_arg (arg_nth 0 input)) (gsigs_of_arg (arg_nth 1 input)))]
+  else if bytes_eqb op (bs "gsigenc") then AB (gencode_sig (gsig_of_arg (arg_nth 0 input)))
+  else if bytes_eqb op (bs "gsigwf") then ok_arg (gsig_ok (gsig_of_arg (arg_nth 0 input)))
+  else if bytes_eqb op (bs "gsigview") then AL [AZ 0; arg_of_pkt (gsig_view (gsig_of_arg (arg_nth 0 input)))]
+  else if bytes_eqb op (bs "lib") || bytes_eqb op (bs "layout") then
     obs_result arg_of_pkgfile (read_package_file (arg_bytes (arg_nth 0 input)))
-  else if bytes_eqb op (bs "sig") then
+  else if bytes_eqb op (bs "sig") || bytes_eqb op (bs "sigpkt") then
     obs_result arg_of_pkt (packet_read (other_of (arg_list (arg_nth 1 input))) (arg_bytes (arg_nth 0 input)))
   else if bytes_eqb op (bs "describe") then
     obs_result arg_of_info (describe (other_of (arg_list (arg_nth 1 input))) (arg_bytes (arg_nth 0 input)))
@@ -168,6 +210,78 @@ Definition check_truth (truth : arg) (i : info) : arg :=
         else AS "signature algorithm, hash or 16-digit issuer key ID differs from the stored signature packet"
     end.
 
+(* ---- layouts: go-rpm must hand out, per declared entry, the typed value that lies at the
+   declared offset.  Written from the RPM header format: an entry is (tag, type, offset, count);
+   types 1 CHAR, 2 INT8, 3 INT16, 4 INT32, 5 INT64 (big endian, count items), 6 STRING,
+   7 BIN (count octets), 8 STRING_ARRAY, 9 I18NSTRING (count NUL-terminated strings), 0 NULL. ---- *)
+
+Fixpoint spec_cstring (l : bytes) : bytes :=
+  match l with [] => [] | b :: r => if b =? 0 then [] else b :: spec_cstring r end.
+
+Fixpoint spec_cstrings (cnt : nat) (l : bytes) : list arg :=
+  match cnt with
+  | O => []
+  | S c => let s := spec_cstring l in AB s :: spec_cstrings c (drop (S (length s)) l)
+  end.
+
+Definition spec_width (ty : N) : N :=
+  if ty =? 3 then 2 else if ty =? 4 then 4 else if ty =? 5 then 8 else 1.
+
+(* the harness renders a value as () | (1 octets) | (2..5 big-endian items) | (6 (strings)) *)
+Definition spec_value (store : bytes) (ty off cnt : N) : arg :=
+  let at_off := drop (N.to_nat off) store in
+  if ty =? 0 then AL []
+  else if (ty =? 1) || (ty =? 7) then AL [AZ 1; AB (take (N.to_nat cnt) at_off)]
+  else if ty <=? 5 then AL [AZ (Z.of_N ty); AB (take (N.to_nat (cnt * spec_width ty)) at_off)]
+  else AL [AZ 6; AL (spec_cstrings (N.to_nat cnt) at_off)].
+
+Definition spec_entry (store : bytes) (d : arg) : arg :=
+  AL [arg_nth 0 d; arg_nth 1 d; arg_nth 2 d; arg_nth 3 d;
+      spec_value store (arg_N (arg_nth 1 d)) (arg_N (arg_nth 2 d)) (arg_N (arg_nth 3 d))].
+
+(* declared header (version ((tag type off cnt)...) store) -> what go-rpm must return for it *)
+Definition spec_header (d : arg) : arg :=
+  let idx := arg_list (arg_nth 1 d) in
+  let store := arg_bytes (arg_nth 2 d) in
+  AL [arg_nth 0 d; AZ (Z.of_nat (length idx)); AZ (Z.of_nat (length store)); AL (map (spec_entry store) idx)].
+
+Definition check_layout (decl impl : arg) : arg :=
+  match impl with
+  | AL [AZ 0%Z; AL [_; AL [h0; h1]]] =>
+      if negb (arg_eqb h0 (spec_header (arg_nth 0 decl))) then
+        AS "signature header: an entry's typed value differs from what lies at its declared offset"
+      else if negb (arg_eqb h1 (spec_header (arg_nth 1 decl))) then
+        AS "main header: an entry's typed value differs from what lies at its declared offset"
+      else AL []
+  | _ => AS "well-formed layout not parsed"
+  end.
+
+(* ---- signature packets: (version algo hash-id (issuer)?) against what packet.Read returned ---- *)
+Definition check_sigpkt (truth impl : arg) : arg :=
+  let v := arg_N (arg_nth 0 truth) in
+  let a := arg_N (arg_nth 1 truth) in
+  let iss := opt_of_arg arg_bytes (arg_nth 3 truth) in
+  match spec_hash_name (arg_N (arg_nth 2 truth)), impl with
+  | Some hn, AL [AZ 0%Z; got] =>
+      (* version 2 and 3 packets share one format (RFC 4880 5.2.2) *)
+      if negb (arg_N (arg_nth 0 got) =? (if v <? 4 then 3 else 4)) then AS "signature packet version differs from the stored one"
+      else if negb (arg_N (arg_nth 1 got) =? a) then AS "public-key algorithm differs from the stored one"
+      else if negb (bytes_eqb (arg_bytes (arg_nth 2 got)) hn) then AS "hash algorithm differs from the stored one"
+      else if v <? 4 then
+        (match iss with
+         | Some k => if bytes_eqb (arg_bytes (arg_nth 3 got)) k then AL [] else AS "issuer key ID differs from the stored one"
+         | None => AL [] end)
+      else
+        (match iss, arg_nth 3 got with
+         | Some k, AL [AB k'] => if bytes_eqb k k' then AL [] else AS "issuer key ID differs from the stored issuer subpacket"
+         | None, AL [] => AL []
+         | Some _, _ => AS "stored issuer subpacket not returned"
+         | None, _ => AS "issuer returned for a packet that stores none"
+         end)
+  | Some _, _ => AS "well-formed signature packet not read"
+  | None, _ => AL []
+  end.
+
 Definition is_outcome (impl : arg) (z : Z) : bool :=
   match impl with AL (AZ x :: _) => Z.eqb x z | _ => false end.
 
@@ -183,6 +297,12 @@ Definition check_C19 (op : bytes) (input impl : arg) : arg :=
           end
       | _ => AL []
       end
+  else if bytes_eqb op (bs "layout") then check_layout (arg_nth 1 input) impl
+  else if bytes_eqb op (bs "sigpkt") then
+    match arg_nth 2 input with
+    | AL [truth] => check_sigpkt truth impl
+    | _ => if is_outcome impl 2 then AS "packet.Read panicked" else AL []
+    end
   else if bytes_eqb op (bs "alloc") then
     (* C08's bound, checked here because the index entries are C19's malformed stream:
        memory allocated while describing the file stays within 1 MiB + 256 x file size *)
